@@ -1084,6 +1084,12 @@ static void collect_fn_sigs(ASTNode *stmt, FunctionTypeRegistry *reg) {
         case AST_FOR:
             collect_fn_sigs(stmt->as.for_stmt.body, reg);
             break;
+        case AST_MATCH:
+            /* Match arms are blocks and may declare function-typed variables too */
+            for (int i = 0; i < stmt->as.match_expr.arm_count; i++) {
+                collect_fn_sigs(stmt->as.match_expr.arm_bodies[i], reg);
+            }
+            break;
         default:
             break;
     }
